@@ -8,7 +8,7 @@ a constructor, for every role, the last write of that role must be followed by a
 that role taken on its true edge (T1 MUST-PASS, decided on enumerated paths)."""
 from .. import sym, lift
 from . import zob
-from .common import B, transitive_field_access, reachable_bodies, iter_places, place_fields, loc
+from .common import local_callees, B, transitive_field_access, reachable_bodies, iter_places, place_fields, loc
 from ..facts import callee_name
 
 BUILDER = "cozy_chess::board::builder::BoardBuilder"
@@ -191,8 +191,8 @@ class Gate:
                 k = work.pop()
                 for k2, b in self.f.bodies.items():
                     if k2 == k or k2.startswith(k + "::{closure"):
-                        for bb_, t_ in b.calls():
-                            cn = callee_name(t_)
+                        # called directly, or mentioned as a function value (a table of stage functions walked in order)
+                        for cn in sorted(local_callees(self.f, b)):
                             if not cn or cn in seen or cn not in self.f.bodies:
                                 continue
                             seen.add(cn)
